@@ -8,7 +8,7 @@ Definition is_some {A} (o : option A) : bool := match o with Some _ => true | No
 
 (* the rule installed in every raw node of the scripts: injective enough that a stale or missing
    input changes the result *)
-Definition Fmix : rule := fun n ins =>
+Definition Fmix : rule nat := fun n ins =>
   if existsb is_some ins
   then Some ((n + fold_left (fun acc o => acc * 3 + match o with Some v => S v | None => 0 end) ins 0) mod 1009)
   else None.
@@ -18,36 +18,36 @@ Inductive eop :=
 | EAddDep (n m : nat)                    (* n.add_dependency(m) *)
 | ETxn (fs : list (nat * nat)).          (* one transaction: fire (node, value) in this queue order *)
 
-Definition mknode ds : node :=
+Definition mknode {Val} ds : node Val :=
   {| deps := ds; dependents := []; visited := false; done := false; changed := false; fire := None |}.
 
-Definition add_dependent (gr : graph) (d n : nat) : graph :=
+Definition add_dependent {Val} (gr : graph Val) (d n : nat) : graph Val :=
   let x := get gr d in
   set gr d {| deps := deps x; dependents := dependents x ++ [n]; visited := visited x; done := done x;
               changed := changed x; fire := fire x |}.
 
-Definition add_dep (gr : graph) (n m : nat) : graph :=
+Definition add_dep {Val} (gr : graph Val) (n m : nat) : graph Val :=
   let x := get gr n in
   let gr1 := set gr n {| deps := deps x ++ [m]; dependents := dependents x; visited := visited x; done := done x;
                          changed := changed x; fire := fire x |} in
   add_dependent gr1 m n.
 
-Definition fire_source (gr : graph) (n v : nat) : graph :=
+Definition fire_source {Val} (gr : graph Val) (n : nat) (v : Val) : graph Val :=
   let x := get gr n in
   set gr n {| deps := deps x; dependents := dependents x; visited := visited x; done := done x;
               changed := true; fire := Some v |}.
 
 (* what the pre_post closures do: clear visited flags, firing slots and changed flags *)
-Definition cleanup (gr : graph) : graph :=
+Definition cleanup {Val} (gr : graph Val) : graph Val :=
   map (fun x => {| deps := deps x; dependents := dependents x; visited := false; done := false;
                    changed := false; fire := None |}) gr.
 
-Definition in_range (gr : graph) (l : list nat) : bool := forallb (fun d => Nat.ltb d (length gr)) l.
+Definition in_range {Val} (gr : graph Val) (l : list nat) : bool := forallb (fun d => Nat.ltb d (length gr)) l.
 
 (* result of a transaction: the update log (oldest first) and every node's final firing *)
 Definition eout := option (list nat * list (option nat)).
 
-Definition estep (orig : bool) (gr : graph) (op : eop) : graph * eout :=
+Definition estep (orig : bool) (gr : graph nat) (op : eop) : graph nat * eout :=
   match op with
   | ENode ds =>
     if in_range gr ds then
